@@ -93,17 +93,38 @@ pub fn gen_graph(u: &mut U) -> TypeGraph {
     }
     let mut struct_min = vec![1usize; n];
     let mut defs: Vec<Option<StructDef>> = vec![None; n];
+    // one graph in eight has a wide struct: member counts around the powers of two (a fixed-size scratch buffer
+    // or a small-vector optimisation changes behaviour exactly there)
+    let wide: Option<(usize, usize)> = if u.ratio(1, 8) {
+        let count = match u.below(4) {
+            0 => [15usize, 16, 17][u.below(3)],
+            1 => [31usize, 32, 33][u.below(3)],
+            2 => [7usize, 8, 9, 63, 64, 65][u.below(6)],
+            _ => u.range(7, 40),
+        };
+        Some((u.below(n), count))
+    } else {
+        None
+    };
     for i in (0..n).rev() {
-        let nm = u.below(7);
+        let is_wide = matches!(wide, Some((w, _)) if w == i);
+        let nm = match wide {
+            Some((w, count)) if w == i => count,
+            _ => u.below(7),
+        };
         let mut mpool: Vec<&str> = MEMBER_NAMES.to_vec();
         let mut members = vec![];
         let mut size = 1usize;
-        for _ in 0..nm {
-            let mi = u.below(mpool.len());
-            let mname = mpool.remove(mi).to_string();
-            let mut ty = gen_member_ty(u, i, n, &names);
+        for k in 0..nm {
+            let mname = if mpool.is_empty() {
+                format!("m{k}")
+            } else {
+                let mi = u.below(mpool.len());
+                mpool.remove(mi).to_string()
+            };
+            let mut ty = if is_wide && !u.ratio(1, 8) { atomic(u) } else { gen_member_ty(u, i, n, &names) };
             let ms = min_size(&ty, &struct_min, &names);
-            if size + ms > 40 {
+            if size + ms > if is_wide { 80 } else { 40 } {
                 ty = atomic(u);
                 size += 1;
             } else {
